@@ -168,6 +168,23 @@ def rangeCheck (g h : G) (pd : RangePublic G) (a b s t x y u v : Int) : Bool :=
   && decide (x > 0)
   && decide (y > 0)
 
+/-- one query to the verifier: its range, the challenge and the answers -/
+structure RangeQuery where
+  a : Int
+  b : Int
+  s : Int
+  t : Int
+  x : Int
+  y : Int
+  u : Int
+  v : Int
+
+/-- a verifier that keeps ONE received attestation object and is asked a whole history of queries on it (several
+    challenges, several identity formats / ranges): the list of verdicts.  `PengBaoPublicData` carries no state besides
+    the public data, so every verdict is `rangeCheck` of that query alone. -/
+def rangeCheckSeq (g h : G) (pd : RangePublic G) (qs : List RangeQuery) : List Bool :=
+  qs.map (fun q => rangeCheck o hash g h pd q.a q.b q.s q.t q.x q.y q.u q.v)
+
 /-- a whole honest round: create, answer the challenge (s, t), check -/
 def rangeRound (g h : G) (value a b : Int) (rnd : RangeRand) (s t : Int) : Option Bool :=
   match createAttestPair o hash g h value a b rnd with
